@@ -52,6 +52,15 @@ def t_masked_store(x, y, f):
     x[~m] = f
     return x
 
+def t_slice_store(x, lo, hi, e):
+    x[lo:hi] = e
+    return x
+
+def t_slice_store_end(x, lo, e, k):
+    x[lo:] = e[:k]
+    y = np.append(x, e[k:])
+    return y, x.shape[0], len(e.shape)
+
 def t_floordiv(a, b):
     return a // b
 
@@ -208,11 +217,29 @@ SPECS = [
          var_types={"acc": Q, "cnt": I},
          gen_args=lambda rng: (lambda k: [k, [rng.random() < 0.4 for _ in range(k)],
                                            [Fraction(rng.randrange(-64, 65), rng.choice([1, 2, 4])) for _ in range(k)]])(rng.randrange(0, 6))),
+    dict(name="t_slice_store", params=[("x", ("list", I)), ("lo", I), ("hi", I), ("e", ("list", I))], returns=("list", I),
+         raises=True, int_arrays=True, gen_args=lambda rng: _slice_args(rng, True)),
+    dict(name="t_slice_store_end", params=[("x", ("list", I)), ("lo", I), ("e", ("list", I)), ("k", I)],
+         returns=P.tup(("list", I), I, I), raises=True, int_arrays=True, gen_args=lambda rng: _slice_args(rng, False)),
     dict(name="t_masked_store", params=[("x", Q), ("y", Q), ("f", Q)], returns=Q, arrays=True, pow2=["y"]),
     dict(name="t_dict_unroll", params=[("d['unit']", P.opt(S)), ("d['a']", Q), ("d['b']", Q), ("h", Q)], returns=P.tup(Q, Q),
          gen_args=lambda rng: [rng.choice([None, "", "radians", "m", "rad"]), Fraction(rng.randrange(-64, 65), 4),
                                Fraction(rng.randrange(-64, 65), 8), Fraction(rng.randrange(-9, 10), 2)]),
 ]
+
+
+def _slice_args(rng, with_hi):
+    """arguments for the numpy slice stores: about half of them with matching shapes, the rest arbitrary (ValueError / broadcast)"""
+    n = rng.randrange(0, 7)
+    x = [rng.randrange(-9, 10) for _ in range(n)]
+    lo, hi = rng.randrange(-8, 9), rng.randrange(-8, 9)
+    ln = len(range(*slice(lo, hi if with_hi else None).indices(n)))
+    if with_hi:
+        m = ln if rng.random() < 0.5 else rng.randrange(0, 4)
+        return [x, lo, hi, [rng.randrange(-9, 10) for _ in range(m)]]
+    m = rng.randrange(0, 6)
+    k = ln if rng.random() < 0.5 else rng.randrange(-6, 7)
+    return [x, lo, [rng.randrange(-9, 10) for _ in range(max(m, k if rng.random() < 0.7 else 0))], k]
 
 
 def gen(t, rng, spec, name):
@@ -316,17 +343,27 @@ def main():
                                 pyargs.append(dicts[dn])
                             if a is not None:
                                 dicts[dn][key] = to_py(a, t[1] if isinstance(t, tuple) and t[0] == "opt" else t, numpy_mode)
+                        elif spec.get("int_arrays") and t == ("list", I):
+                            pyargs.append(np.array(a, dtype=np.int64))
                         else:
                             pyargs.append(to_py(a, t, numpy_mode))
-                    res = env[spec["name"]](*pyargs)
+                    try:
+                        res = env[spec["name"]](*pyargs)
+                    except ValueError:
+                        if not spec.get("raises"):
+                            raise
+                        res = None          # the translated function must return `none` exactly here
             except ZeroDivisionError:
                 continue
-            if isinstance(res, list):
+            if spec.get("int_arrays") and res is not None:
+                res = tuple(r.tolist() if isinstance(r, np.ndarray) else r for r in res) if isinstance(res, tuple) else res.tolist()
+                n_ok = n_ok + 1 if "n_ok" in dir() else 1
+            if isinstance(res, list) and not spec.get("int_arrays"):
                 res = tuple(res)
             if spec.get("arrays"):       # elementwise reading: arrays of one element in, element 0 out
                 res = tuple(np.asarray(r).ravel()[0] for r in res) if isinstance(res, tuple) else np.asarray(res).ravel()[0]
             call = f"Gen.{spec['name']} " + ("200 " if spec.get("fuel") else "") + " ".join(lean_lit(a, t) for a, (_, t) in zip(args, spec["params"]))
-            checks.append(f"#eval decide (({call}) = {lean_lit(res, spec['returns'])})")
+            checks.append(f"#eval decide (({call}) = {lean_lit(res, P.opt(spec['returns']) if spec.get('raises') else spec['returns'])})")
             labels.append((spec["name"], args, res))
     src = ("import PyresampleModel.Gen.Prelude\nset_option linter.unusedVariables false\nnamespace PyresampleModel.Gen\n\n" + "\n".join(defs) +
            "\nend PyresampleModel.Gen\nopen PyresampleModel\n" + "\n".join(checks) + "\n")
